@@ -107,7 +107,7 @@ func fieldWrites1(fn *ssa.Function, owner, name string) []ssa.Instruction {
 				continue
 			}
 			o, st := ownerOfFieldBase(fa.X.Type())
-			if o != owner || st == nil || st.Field(fa.Field).Name() != name {
+			if o != owner || st == nil || fieldNameOf(st.Field(fa.Field)) != name {
 				continue
 			}
 			for _, r := range *fa.Referrers() {
@@ -465,7 +465,7 @@ func runC14(c *Ctx) {
 					if u, ok := lk.X.(*ssa.UnOp); ok {
 						if fa, ok := u.X.(*ssa.FieldAddr); ok {
 							if o, st := ownerOfFieldBase(fa.X.Type()); o == pool && st != nil {
-								field = st.Field(fa.Field).Name()
+								field = fieldNameOf(st.Field(fa.Field))
 							}
 						}
 					}
